@@ -380,7 +380,7 @@ def r6(ctx):
                   role="commit:pool-threading", expected="remaining <- ranked ids before the loop, <- previous search result inside it", found=found)
 
 
-@rule("C08", "R7", "ORDER", "exhausting the donor pool raises RuntimeError naming the shortage")
+@rule("C08", "R7", "ORDER", "exhausting the donor pool raises RuntimeError naming the shortage", evidence=True)
 def r7(ctx):
     from . import c20
     ctx.sub(c20.r4)
